@@ -24,6 +24,52 @@ CHECKS = {
         'for gloo/NCCL; values are position-revealing integers only; '
         'sequences longer than 3 operations are not explored.',
         '3/C08'),
+    'C14': (
+        'bounded-exhaustive enumeration of sizes/dtypes/layouts on the real '
+        'pack/unpack code + explicit-state exploration of symmetric vs dense '
+        'collectives in simulated worlds',
+        'fill_triu(get_triu(x)) is compared bitwise with x for every n up to '
+        'the bound, 4 floating dtypes, 3 memory layouts and 4 position-/'
+        'exponent-revealing symmetric patterns; symmetric allreduce / '
+        'bucketed allreduce / broadcast are compared with their dense '
+        'counterparts in simulated worlds (fixed schedules + exhaustive '
+        'interleavings of small programs); every non-square / non-2-D shape '
+        'with <=3 dims of extent <=3 must raise NonSquareTensorError with an '
+        'empty collective trace on every rank.',
+        'n bounded (96 quick / 512 thorough); contents from a finite '
+        'catalogue; simdist stands in for gloo/NCCL.',
+        '3/C14'),
+    'C17': (
+        'bounded-exhaustive enumeration of all inputs in a finite box '
+        '(all set partitions x all small cost dictionaries) against a '
+        'brute-force greedy-consistency oracle',
+        'Every set partition of worlds up to 5 (quick) / 6 (thorough) x '
+        'every cost dictionary with <=3 layers, <=3 factors, costs in a '
+        'small alphabet (plus a wide-range catalogue) x colocate on/off is '
+        'fed to the real greedy_assignment; completeness, group '
+        'confinement, producibility by SOME least-loaded greedy run, both '
+        'balance bounds, purity over depth-2 call histories and argument '
+        'immutability are checked on each.',
+        'cost values outside the alphabets are not explored; worlds > 6 not '
+        'explored.',
+        '3/C17'),
+    'C06': (
+        'bounded-exhaustive enumeration of (world, divisor, rank, colocate, '
+        'cost dictionary) on the real KAISAAssignment / KFACPreconditioner '
+        'against an arithmetic grid reference, plus cross-process '
+        'determinism under different hash seeds',
+        'For every world size up to 128 (quick) / 512 (thorough), every '
+        'divisor k given as k/world, every local rank, colocate on/off and '
+        'a catalogue of cost dictionaries (all dictionaries with <=3 layers '
+        'over costs {0,1,2} for small worlds) one KAISAAssignment per rank '
+        'is built and all public queries are compared across ranks and with '
+        'an independent grid reference; the same through '
+        'KFACPreconditioner with float and enum fractions in simulated '
+        'worlds; assignments are re-derived in separate processes with '
+        'different PYTHONHASHSEED values.',
+        'world sizes above the bound and cost values outside the alphabets '
+        'are not explored.',
+        '3/C06'),
 }
 
 NOT_YET = 'check not built yet (work in progress, see DESIGN.md section 8)'
